@@ -90,9 +90,14 @@ def qasm_unitary(text: str):
     """interpreter for the subset quri-parts emits; returns (n, unitary)"""
     n = None
     u = None
-    for raw in text.split("\n"):
+    lines = [l.strip() for l in text.split("\n") if l.strip()]
+    if not lines or not re.fullmatch(r"OPENQASM 3(\.\d+)?;", lines[0]):
+        raise ValueError(f"not an OpenQASM 3 program: first line {lines[:1]!r}")
+    if 'include "stdgates.inc";' not in lines[1:3]:
+        raise ValueError("stdgates.inc is not included")
+    for raw in lines[1:]:
         line = raw.strip()
-        if not line or line.startswith("OPENQASM") or line.startswith("include") or line.startswith("bit["):
+        if line.startswith("include") or re.fullmatch(r"bit\[\d+\] c;", line):
             continue
         m = re.fullmatch(r"qubit\[(\d+)\] q;", line)
         if m:
@@ -101,12 +106,14 @@ def qasm_unitary(text: str):
             continue
         if re.fullmatch(r"c = measure q;", line) or re.fullmatch(r"c\[\d+\] = measure q\[\d+\];", line):
             continue
-        m = re.fullmatch(r"([a-z0-9]+)(?:\(([^)]*)\))? (.*);", line)
+        m = re.fullmatch(r"([A-Za-z0-9]+)(?:\(([^)]*)\))? (.*);", line)
         if not m or u is None:
             raise ValueError(f"unrecognised QASM line: {line!r}")
         name, ps, qs = m.group(1), m.group(2), m.group(3)
         params = [float(x) for x in ps.split(",")] if ps else []
         wires = [int(x) for x in re.findall(r"q\[(\d+)\]", qs)]
+        if len(wires) != len(qs.split(",")) or any(w >= n for w in wires) or len(set(wires)) != len(wires):
+            raise ValueError(f"bad operands in {line!r} for qubit[{n}] q")
         if name in _QASM_1Q:
             mat = dense.ONE[_QASM_1Q[name]]
         elif name == "rx":
@@ -121,8 +128,30 @@ def qasm_unitary(text: str):
             mat = dense.u3(math.pi / 2, params[0], params[1])
         elif name == "u3":
             mat = dense.u3(*params)
-        elif name == "cx":
+        elif name in ("p", "phase"):
+            mat = np.diag([1, cmath.exp(1j * params[0])])
+        elif name == "sxdg":  # not in stdgates.inc: an undefined gate
+            raise ValueError("gate sxdg is not defined by stdgates.inc")
+        elif name in ("cx", "CX"):
             mat = dense.local_matrix("CNOT")
+        elif name in ("cy", "ch", "cp", "cphase", "crx", "cry", "crz", "cu"):  # wires [control, target]
+            if name == "cy":
+                t = dense.ONE["Y"]
+            elif name == "ch":
+                t = dense.ONE["H"]
+            elif name in ("cp", "cphase"):
+                t = np.diag([1, cmath.exp(1j * params[0])])
+            elif name == "cu":
+                t = cmath.exp(1j * params[3]) * dense.u3(*params[:3])
+            else:
+                t = {"crx": dense.rx, "cry": dense.ry, "crz": dense.rz}[name](params[0])
+            mat = np.eye(4, dtype=complex)
+            for a in range(2):
+                for b in range(2):
+                    mat[1 + 2 * a, 1 + 2 * b] = t[a, b]
+        elif name == "cswap":  # wires [control, a, b]
+            mat = np.eye(8, dtype=complex)
+            mat[[3, 5]] = mat[[5, 3]]
         elif name == "cz":
             mat = dense.local_matrix("CZ")
         elif name == "swap":
@@ -130,6 +159,10 @@ def qasm_unitary(text: str):
         elif name == "ccx":
             mat = dense.local_matrix("TOFFOLI")
         else:
-            raise ValueError(f"gate {name} is not in stdgates.inc subset")
+            raise ValueError(f"gate {name} is not defined by stdgates.inc")
+        if mat.shape[0] != 1 << len(wires):
+            raise ValueError(f"gate {name} applied to {len(wires)} operands in {line!r}")
         u = dense.embed(n, wires, mat) @ u
+    if u is None:
+        raise ValueError("no qubit declaration")
     return n, u
